@@ -112,8 +112,12 @@ pub fn reciprocal_2_mg10(d: u128) -> u64 {
     let mut p = d1.wrapping_mul(v).wrapping_add(d0);
     // OPT: This is checking the carry flag
     if p < d0 {
+        #[cfg(recmo_uint_verif)]
+        crate::verif_hooks::hit(crate::verif_hooks::Hook::reciprocal_2_adjust_1);
         v = v.wrapping_sub(1);
         if p >= d1 {
+            #[cfg(recmo_uint_verif)]
+            crate::verif_hooks::hit(crate::verif_hooks::Hook::reciprocal_2_adjust_2);
             v = v.wrapping_sub(1);
             p = p.wrapping_sub(d1);
         }
@@ -126,8 +130,12 @@ pub fn reciprocal_2_mg10(d: u128) -> u64 {
     let p = p.wrapping_add(t1);
     // OPT: This is checking the carry flag
     if p < t1 {
+        #[cfg(recmo_uint_verif)]
+        crate::verif_hooks::hit(crate::verif_hooks::Hook::reciprocal_2_adjust_3);
         v = v.wrapping_sub(1);
         if (u128::from(p) << 64) | u128::from(t0) >= d {
+            #[cfg(recmo_uint_verif)]
+            crate::verif_hooks::hit(crate::verif_hooks::Hook::reciprocal_2_adjust_4);
             v = v.wrapping_sub(1);
         }
     }
